@@ -214,6 +214,12 @@ impl DapTransport for Mock {
         WRITES.fetch_add(1, Ordering::SeqCst);
         let fwd = m["event"] == "output" && (m["body"]["category"] == "stdout" || m["body"]["category"] == "stderr");
         if !fwd { SESSION_WRITES.fetch_add(1, Ordering::SeqCst); }
+        if fwd {
+            let i = if m["body"]["category"] == "stdout" { 0 } else { 1 };
+            OUT_BYTES[i].fetch_add(m["body"]["output"].as_str().map(|s| s.len()).unwrap_or(0) as u64, Ordering::SeqCst);
+        }
+        if m["event"] == "exited" { EXITED.fetch_add(1, Ordering::SeqCst); }
+        if m["type"] == "response" && m["command"] == "launch" && m["success"] == true { LAUNCHES.fetch_add(1, Ordering::SeqCst); }
         Ok(())
     }
 }
@@ -221,6 +227,9 @@ impl DapTransport for Mock {
 static READS: AtomicU64 = AtomicU64::new(0);
 static WRITES: AtomicU64 = AtomicU64::new(0);
 static SESSION_WRITES: AtomicU64 = AtomicU64::new(0);
+static OUT_BYTES: [AtomicU64; 2] = [AtomicU64::new(0), AtomicU64::new(0)];
+static EXITED: AtomicU64 = AtomicU64::new(0);
+static LAUNCHES: AtomicU64 = AtomicU64::new(0);
 /// number of forwarder allocations that are still to be held back (per forwarder) — `fwdlate` forcing
 static HOLD_FWD: [AtomicI64; 2] = [AtomicI64::new(0), AtomicI64::new(0)];
 static ALLOC_LOG: Mutex<Option<Arc<Recorder>>> = Mutex::new(None);
@@ -245,7 +254,7 @@ fn sched_hook(name: &'static str, seq: i64) {
 
 struct Req { cseq: i64, cmd: String, mutn: String, param: u64 }
 
-fn worker(variant: &str, force: &str, reqs: &[Req], log: &Path) -> ! {
+fn worker(variant: &str, force: &str, reqs: &[Req], log: &Path, expected_len: (u64, u64)) -> ! {
     let rec = Arc::new(Recorder { f: Mutex::new(std::fs::File::create(log).unwrap()) });
     *ALLOC_LOG.lock().unwrap() = Some(rec.clone());
     bugstalker::dap::verif::set_sched_hook(Some(sched_hook));
@@ -303,6 +312,15 @@ fn worker(variant: &str, force: &str, reqs: &[Req], log: &Path) -> ! {
     drop(tx.take());
     let t0 = Instant::now();
     while !h.is_finished() && t0.elapsed() < Duration::from_secs(20) { std::thread::sleep(Duration::from_millis(1)); }
+    // the debuggee ran to its exit: everything it printed is in the pipes; wait (generously: the machine may be
+    // loaded) until the forwarders have delivered it, so that `output-lost` is never a scheduling artefact
+    if EXITED.load(Ordering::SeqCst) > 0 && LAUNCHES.load(Ordering::SeqCst) == 1 {
+        let t0 = Instant::now();
+        while (OUT_BYTES[0].load(Ordering::SeqCst) < expected_len.0 || OUT_BYTES[1].load(Ordering::SeqCst) < expected_len.1)
+            && t0.elapsed() < Duration::from_secs(20) {
+            std::thread::sleep(Duration::from_millis(2));
+        }
+    }
     // let the forwarders finish (the debugger is dropped with the session: pipes reach EOF)
     let mut last = WRITES.load(Ordering::SeqCst);
     let mut quiet = Instant::now();
@@ -345,7 +363,7 @@ fn parse_sessions(lines: &[String]) -> Vec<Session> {
     out
 }
 
-fn run_workers(sessions: &[Session], dir: &Path) -> Vec<(PathBuf, String)> {
+fn run_workers(sessions: &[Session], dir: &Path, expected: &[(Vec<u8>, Vec<u8>); 2]) -> Vec<(PathBuf, String)> {
     let par = std::env::var("C12_PAR").ok().and_then(|s| s.parse().ok()).unwrap_or(6usize);
     let mut results: Vec<(PathBuf, String)> = (0..sessions.len()).map(|i| (dir.join(format!("s{i}.jsonl")), String::new())).collect();
     let mut running: Vec<(i32, usize, Instant)> = vec![];
@@ -357,7 +375,8 @@ fn run_workers(sessions: &[Session], dir: &Path) -> Vec<(PathBuf, String)> {
             let pid = unsafe { libc::fork() };
             if pid == 0 {
                 // quiet worker: the library logs to stderr in places
-                worker(&s.variant, &s.force, &reqs, &results[next].0);
+                let ex = if s.variant == "threads" { &expected[1] } else { &expected[0] };
+                worker(&s.variant, &s.force, &reqs, &results[next].0, (ex.0.len() as u64, ex.1.len() as u64));
             }
             assert!(pid > 0, "fork failed");
             running.push((pid, next, Instant::now()));
@@ -682,7 +701,7 @@ pub fn exec(req: &[String], out: &mut Out, dir: &Path) {
     let sessions = parse_sessions(req);
     let sdir = dir.join("sessions");
     std::fs::create_dir_all(&sdir).unwrap();
-    let results = run_workers(&sessions, &sdir);
+    let results = run_workers(&sessions, &sdir, &expected);
     for (s, (path, status)) in sessions.iter().zip(results.iter()) {
         if !s.new_line.is_empty() { out.pair(s.new_line.clone(), "ok".into()); }
         let log = load_log(path);
